@@ -174,6 +174,11 @@ def run_c05_tree(desc, seed):
             add("C05:tree:below-eckart-young", f"tree {parent} {kind} {style}={payload}: distance {dist} < {low}")
         if dist > up + slack:
             add(f"C05:tree:above-discarded-weight:{style}", f"tree {parent} {kind} {style}={payload}: distance {dist:.6e} > {up:.6e}; bond dims {bd}")
+        if limits is not None:
+            # the bound of the property is in terms of the REQUESTED limits
+            up_req = np.sqrt(sum(np.sum(spectra[i][limits[i]:] ** 2) for i in range(1, N)))
+            if dist > up_req + slack:
+                add(f"C05:tree:over-truncated:{style}", f"tree {parent} {kind} {style}={payload}: distance {dist:.6e} > sqrt(summed discarded weights for the requested limits) {up_req:.6e}; bond dims {bd}")
         # singular values returned for the first compressed bond (root -> first child) are those of the original state
         first = 1
         got = np.sort(np.asarray(s_array[first]))[::-1]
